@@ -26,6 +26,17 @@ func genC08(seed uint64) *Scenario {
 				}
 			}
 			l.insts = append(l.insts, "null")
+			if vs.m != nil && r.Chance(150) {
+				// a bulky value: whatever a long-lived validator counts, stacks or remembers per element or per failure
+				// gets a chance to overflow / leak within one call
+				if it, ok := vs.m["items"].(M); ok {
+					var big []any
+					for k := 0; k < r.Range(70, 140); k++ {
+						big = append(big, g.Instance(it, 1, r.Chance(300)))
+					}
+					l.insts = append(l.insts, js(big))
+				}
+			}
 			sc.LL = append(sc.LL, &LLValidator{Kind: "schema", Schema: vs.text, Path: pick(r, []string{"", "root", "a.b"})})
 			lls = append(lls, l)
 		case x < 8:
@@ -47,8 +58,11 @@ func genC08(seed uint64) *Scenario {
 		}
 	}
 	n := pick(r, []int{2, 3, 4, 6, 8, 12, 20, 30})
+	if r.Chance(40) {
+		n = pick(r, []int{80, 150, 300}) // long service: counters and leaks that need many calls
+	}
 	if deep() {
-		n = pick(r, []int{3, 6, 12, 30, 60, 100})
+		n = pick(r, []int{3, 6, 12, 30, 60, 100, 300, 600})
 	}
 	churnPM := pick(r, []int{0, 150, 400})
 	var ops []Op
